@@ -670,9 +670,42 @@ func rc4Incremental(w *World) {
 		return
 	}
 	info := p.TypesInfo
-	isCanon := func(x ast.Node) bool {
+	isCanonDirect := func(x ast.Node) bool {
 		c, ok := x.(*ast.CallExpr)
 		return ok && isFunc(callee(info, c), modPath+"/experimental/report", "Report", "Canonicalize")
+	}
+	// helpers of the package that canonicalize the report they build on every path to a return
+	// (e.g. a collectReport method extracted from Run) count as canonicalization points
+	canonFuncs := map[*types.Func]bool{}
+	for _, b := range allFuncBodies(p) {
+		if b.Lit != nil || b.Obj == runFn.Obj {
+			continue
+		}
+		has := false
+		ast.Inspect(b.Body, func(x ast.Node) bool {
+			if isCanonDirect(x) {
+				has = true
+			}
+			return true
+		})
+		if !has {
+			continue
+		}
+		nr, badr := mustPrecede(info, b.Body, isCanonDirect, func(x ast.Node) bool { _, ok := x.(*ast.ReturnStmt); return ok })
+		if nr >= 1 && len(badr) == 0 {
+			canonFuncs[b.Obj] = true
+		}
+	}
+	isCanon := func(x ast.Node) bool {
+		if isCanonDirect(x) {
+			return true
+		}
+		c, ok := x.(*ast.CallExpr)
+		if !ok {
+			return false
+		}
+		f := callee(info, c)
+		return f != nil && canonFuncs[f.Origin()]
 	}
 	isRet := func(x ast.Node) bool {
 		r, ok := x.(*ast.ReturnStmt)
